@@ -120,32 +120,36 @@ def gen_case(rng, thorough=False):
                 which = "lr"
             ed[gi] = {which: {"lr": rng.choice([0.25, 0.0625, 0.0]), "wd": rng.choice([0.0, 0.125]), "momentum": 0.25}[which]}
         steps.append({"present": [pres[gi][0][s] for gi in range(ngroups)], "gseed": rng.randrange(1 << 30), "edits": ed})
-    return condition_guard({"groups": groups, "init_seed": rng.randrange(1 << 30), "steps": steps,
-                            "presence_kinds": [p[1] for p in pres]})
+    case = {"groups": groups, "init_seed": rng.randrange(1 << 30), "steps": steps, "presence_kinds": [p[1] for p in pres]}
+    # gradient magnitude regimes (exact powers of two): tiny gradients make factor entries ~1e-10 (exact-zero tests such as
+    # check_diagonal must not be replaced by tolerance tests); a large-gradient regime is not used: float noise in the rotated coordinates scales with it
+    case["gscale"] = rng.choice([1.0, 1.0, 1.0, 1.0, 2.0 ** -17])
+    return condition_guard(case)
 
 
 def condition_guard(case):
     """Keep the value tie well-conditioned: the search direction of an order-o Shampoo block is the gradient multiplied, mode after
     mode, by inverse roots whose entries reach eps^(-expmult/root); the float noise of BLAS summation order is amplified by the
-    product over the modes.  Raise eps until eps^(-sum of exponents) <= 1e6 for every shape of the case (the formulas under test do
+    product over the modes.  Raise eps until eps^(-sum of exponents) <= 1e4 for every shape (and every order it can be merged to) (the formulas under test do
     not depend on eps)."""
     need = 0.0
     for gi, g in enumerate(case["groups"]):
         c = optrun.effective_cfg(case, gi)
         for sh in g["shapes"]:
-            order = max(1, len(sh))
-            if c.get("kind", "shampoo") == "soap":
-                E = 0.5
-            else:
-                ov = c["override"]
-                if isinstance(ov, (list, tuple)):
-                    root = ov[order] if order < len(ov) else 2 * order
+            # merging may reduce the order of a block, and the root depends on the order: take the worst over all possible orders
+            for order in range(1, max(1, len(sh)) + 1):
+                if c.get("kind", "shampoo") == "soap":
+                    E = 0.5
                 else:
-                    root = ov if ov != 0 else 2 * order
-                root = max(root, 1)
-                mult = c.get("expmult", 1.0) if c.get("amort", "eigen") in ("eigen", "eigen_stab") else 1.0
-                E = order * mult / root
-            need = max(need, 10.0 ** (-6.0 / E))
+                    ov = c["override"]
+                    if isinstance(ov, (list, tuple)):
+                        root = ov[order] if order < len(ov) else 2 * order
+                    else:
+                        root = ov if ov != 0 else 2 * order
+                    root = max(root, 1)
+                    mult = c.get("expmult", 1.0) if c.get("amort", "eigen") in ("eigen", "eigen_stab") else 1.0
+                    E = order * mult / root
+                need = max(need, 10.0 ** (-4.0 / E))
     need = min(need, 0.5)
     c0 = case["groups"][0]["cfg"]
     c0["eps"] = max(c0["eps"], need)
